@@ -594,6 +594,16 @@ func ffRawOp(op, pat string, args []string, a *argTrack) string {
 			ff.Butterfly(&x, &y)
 		}
 		return ffShowLimbs(&x) + " " + ffShowLimbs(&y)
+	case "butterflyab":
+		// Butterfly(a, a): both arguments the same element — every back-end must leave the same value
+		need(args, 1)
+		x := lim(0)
+		if pat == "generic" {
+			ffButterflyGeneric(&x, &x)
+		} else {
+			ff.Butterfly(&x, &x)
+		}
+		return ffShowLimbs(&x)
 	case "mulby3", "mulby5", "mulby13":
 		need(args, 1)
 		x := lim(0)
